@@ -19,6 +19,7 @@ bool                       g_tfo_ok   = false;
 int                        g_nservers = 1;
 int                        g_chunk    = 0;
 std::vector<int>           g_wscript_default;
+std::vector<int>           g_wscript_default_udp;   // same for new UDP sockets
 long                       g_io_events = 0;
 static int                 g_nextfd   = 100;
 extern int                 g_plumb;
@@ -42,6 +43,7 @@ void vsock_reset() {
   g_srcip  = 1;
   g_chunk  = 0;
   g_wscript_default.clear();
+  g_wscript_default_udp.clear();
   g_io_events = 0;
 }
 
@@ -79,6 +81,7 @@ static ares_socket_t v_socket(int domain, int type, int, void *) {
   s.tcp    = (type == SOCK_STREAM);
   s.family = domain;
   if (s.tcp) for (int x : g_wscript_default) s.wscript.push_back(x);
+  else for (int x : g_wscript_default_udp) s.wscript.push_back(x);
   g_socks[s.fd] = s;
   ev("{\"e\":\"sk\",\"op\":\"open\",\"fd\":%d,\"tcp\":%d,\"fam\":%d,\"res\":\"ok\"}", s.fd, s.tcp ? 1 : 0,
      domain == AF_INET6 ? 6 : 4);
@@ -226,7 +229,7 @@ static ares_ssize_t v_recvfrom(ares_socket_t fd, void *buffer, size_t length, in
   if (n > length) n = length;
   memcpy(buffer, s->instream.data(), n);
   s->instream.erase(0, n);
-  ev("{\"e\":\"sk\",\"op\":\"recv\",\"fd\":%d,\"res\":\"ok\",\"n\":%zu,\"stream\":1}", fd, n);
+  ev("{\"e\":\"sk\",\"op\":\"recv\",\"fd\":%d,\"res\":\"ok\",\"n\":%zu,\"cap\":%zu,\"stream\":1}", fd, n, length);
   return (ares_ssize_t)n;
 }
 
@@ -248,8 +251,8 @@ static std::string frame_json(const Frame &f) {
     snprintf(b, sizeof b, "{\"seq\":%d,\"bad\":1,\"len\":%zu}", f.seq, f.bytes.size());
     return b;
   }
-  snprintf(b, sizeof b, "{\"seq\":%d,\"bad\":0,\"qid\":%d,\"qt\":%d,\"qc\":%d,\"edns\":%d,\"clen\":%zu,\"len\":%zu,", f.seq, f.qid,
-           f.qtype, f.qclass, f.edns ? 1 : 0, f.cookie.size(), f.bytes.size());
+  snprintf(b, sizeof b, "{\"seq\":%d,\"bad\":0,\"qid\":%d,\"qt\":%d,\"qc\":%d,\"edns\":%d,\"clen\":%zu,\"len\":%zu,\"mlen\":%zu,", f.seq, f.qid,
+           f.qtype, f.qclass, f.edns ? 1 : 0, f.cookie.size(), f.bytes.size(), f.mlen);
   r = b;
   // cookie identity: small ids for client part and server part so the spec can compare them
   r += "\"ck\":" + jstr(f.cookie.size() >= 8 ? f.cookie.substr(0, 8) : "") + ",";
